@@ -65,7 +65,11 @@ func TestReproCheckPeersAlertsPerStoredMetric(t *testing.T) {
 			if a == 0 {
 				sym = "alert-missing"
 			}
-			R.Violation("C09|CheckPeers|"+sym+"|no-prior-alert|"+c.stored(), map[string]interface{}{
+			key := "C09|CheckPeers|" + sym + "|no-prior-alert|" + c.stored()
+			if a == 0 {
+				key += "|latest=valid"
+			}
+			R.Violation(key, map[string]interface{}{
 				"repro":    fmt.Sprintf("Store.Add x%d (ping,p,valid,ttl 2s); sleep 3s; Checker.CheckPeers([p]) once", n),
 				"expected": "1 alert", "observed": a, "alerts_for_1..7_stored": series})
 		}
